@@ -71,6 +71,15 @@ def defaultFuel : Nat := 64
 def safeName (e : Env) (u : UEnv) (cv : Conv) (name : Str) : Res :=
   safeNameFuel e u cv defaultFuel name
 
+/-- `Filters.validate_safe_prefixes`, one prefix: the first ASCII alphanumeric is a letter -/
+def validPrefix (p : Str) : Bool :=
+  match alnum p with
+  | c :: _ => isAsciiAlpha c
+  | [] => false
+
+/-- `Filters.__init__` as far as names go: `false` = CodegenError("Invalid safe prefix…") -/
+def filtersInit (prefixes : List Str) : Bool := prefixes.all validPrefix
+
 /-- `namespaces.clean_uri` -/
 def cleanUri (ns : Str) : Str :=
   let ns := if ns.take 2 = ['#', '#'] then ns.drop 2 else ns
